@@ -63,7 +63,7 @@ struct Crash : Profile {
     }
     std::vector<std::string> required_probes() const override
     {
-        return {"crash-images", "images-inside-flush", "new-dd-block-in-session", "session-hv-new", "session-other"};
+        return {"crash-images", "images-inside-flush", "new-dd-block-in-session", "session-hv-new", "session-other", "flush-start-site-checked"};
     }
 
     Plan generate(Rng &rng, bool thorough, uint64_t) override
@@ -173,6 +173,7 @@ struct Crash : Profile {
                     d0      = simfs::disk_serialize(simfs::disk());
                     l0      = logical_end(simfs::file_bytes(simfs::disk(), mx.path), &ddblocks);
                     simfs::keep_writelog(true);
+                    simfs::keep_writelog_sites(true);
                     simfs::clear_writelog();
                     continue;
                 }
@@ -204,6 +205,19 @@ struct Crash : Profile {
                 bool in_dd = false;
                 for (auto &b : ddblocks)
                     in_dd |= rec.kind == 0 && rec.off >= b.first && rec.off < b.second;
+                if (in_dd) {
+                    // the write that begins the flush comes from the descriptor flush of a sync or close (HTPsync), not from
+                    // some call on the way there: a descriptor updated in place any earlier would change the stored file
+                    // while the rest of the session's descriptors is still in memory
+                    ctx.probe("flush-start-site-checked");
+                    if (getenv("H4SIM_DEBUG"))
+                        fprintf(stderr, "flush starts in: %s\n", rec.site.c_str());
+                    if (rec.site.find("HTPsync") == std::string::npos)
+                        ctx.fail("descriptor-write-before-flush", "descriptor-write-before-flush",
+                                 strf("op %d (%s) wrote %zu bytes into a descriptor block of the base file (offset %lld) outside the "
+                                      "descriptor flush: %s",
+                                      rec.op, p.ops[(size_t)rec.op].kind.c_str(), rec.data.size(), (long long)rec.off, rec.site.c_str()));
+                }
                 if (in_dd || (first_flush >= 0 && rec.op >= first_flush && p.ops[(size_t)first_flush].kind == "sync"))
                     break;
                 pre++;
